@@ -108,6 +108,9 @@ inductive Op where
   | complete          -- batchStorer.MarkBatchComplete = Store.MarkBatchComplete
   | discard
   | reopen
+  /-- a reconnect to the auctioneer between signing (staging) and finalisation: `Client.checkPendingBatch` on the
+  real database (C06's `reconnect`) – keeps the staged batch unless the auctioneer finalised ANOTHER txid -/
+  | reconnect (rpc : Rpc) (removeOk : Bool)
 deriving DecidableEq, Repr
 
 def step (db : DB) : Op → DB × Option Err
@@ -115,6 +118,7 @@ def step (db : DB) : Op → DB × Option Err
   | .complete => C06.step db .complete
   | .discard => C06.step db .discard
   | .reopen => C06.step db .reopen
+  | .reconnect rpc rm => C06.step db (.reconnect rpc rm)
 
 def run (db : DB) : List Op → DB
   | [] => db
